@@ -36,7 +36,7 @@ fn run(ctx: &mut Ctx, extra: &mut BTreeMap<String, String>, prefix_only: bool) {
       let g = grid_points().len(); pts.drain(0..g);
     }
     for &(lon, lat) in pts.iter() { judge_point(c, &layers, lon, lat, prefix_only); }
-    if k == 0 && !prefix_only { rejections(c, &layers); }
+    if k == 0 && !prefix_only { rejections(c, &layers); far_longitudes(c, &layers); }
   });
   extra.insert("depths".into(), "\"0..=29 for every position\"".into());
 }
@@ -91,6 +91,16 @@ pub fn judge_point(ctx: &mut Ctx, layers: &[&'static nested::Layer], lon: f64, l
 }
 
 /// latitudes outside [-pi/2, pi/2] must be rejected by a panic at every depth
+/// longitudes beyond "a few turns" (the statement's domain; the workload goes to +-30 turns): observed for information only
+fn far_longitudes(ctx: &mut Ctx, layers: &[&'static nested::Layer]) {
+  for &turns in [31.0f64, 32.5, 40.0, 100.0, 1e3, 1e6, 1e9].iter() { for &sg in [1.0, -1.0].iter() { for &(l0, lat) in [(0.3, 0.2), (2.0, 1.2), (4.0, -0.9)].iter() {
+    let lon = sg * (l0 + turns * TWO_PI);
+    let tol = 8e-16 * lon.abs() * 4.0 / PI + 1e-12;
+    let ok = (0..30usize).step_by(7).all(|d| match catch(|| layers[d].hash(lon, lat)) { Ok(h) => h < n_hash(d as u8) && contains(d as u8, h, lon, lat, tol).0, Err(_) => false });
+    ctx.info(&format!("far-longitude(|lon|~{:e}-turns):{}", turns, if ok { "cell-contains-the-position" } else { "wrong-cell-or-panic(not-claimed:-beyond-a-few-turns)" }));
+  } } }
+}
+
 fn rejections(ctx: &mut Ctx, layers: &[&'static nested::Layer]) {
   let bad = [nudge(PI / 2.0, 1), nudge(-PI / 2.0, -1), 1.58, -1.58, 2.0, -3.0, 1e10, f64::INFINITY, f64::NEG_INFINITY, f64::NAN];
   for &lat in bad.iter() {
